@@ -230,7 +230,7 @@ def main_check(check_id: str, tier: str, replay: str | None = None) -> int:
         res = st.get("result")
         rc = st.get("returncode")
         if res is None or not res.get("complete"):
-            tail = stderr_tail(st["stderr_path"])
+            tail = stderr_tail(st["stderr_path"], 400)
             if st.get("timeout"):
                 inconclusive.append({"shard": st["idx"], "reason": "watchdog timeout", "spec": spec})
             elif rc is not None and rc < 0:
